@@ -36,7 +36,15 @@ FastaIndex(path).auto_load(); it must raise or show exactly that.
     the complete runs of (f), crash points (b) and injections (d) on one of them; index AND assembly of every load, from the
     cache or not, must be those of the current content.  When the .agp on disk is judged with this module's own reader it is
     compared with the scaffolds that have rows.
-After (a), (d), (e), (h) and (i) the cache files themselves are read with this module's own parsers: if both exist and are strictly
+(j) record ORDER.  The index of a FASTA file is the sequence of its records in file order (that is what a .fai is, and what
+    iterating FastaIndex.index / FastaIndex.assembly.scaffolds gives after indexing), so "exactly the index and assembly of
+    the current content" is judged on ordered lists, never on dict equality.  In the contents of (a)-(i) the record names
+    happen to be in string order, so an order lost on the way through the cache would not show.  Family (j) uses contents
+    whose file order differs from every order a program might impose (string order of the names, natural / numeric order,
+    case-folded order, ascending or descending length, reverse file order), with and without records that have no residues
+    (whose place in the assembly can only come from the index order): histories as in (a), (e), (g), complete runs (f), crash
+    points (b) and injections (d) over these contents.
+After (a), (d), (e), (h), (i) and (j) the cache files themselves are read with this module's own parsers: if both exist and are strictly
 newer than the FASTA (what any later process will take as valid) they must describe the FASTA bytes.
 
 Layouts.  The path handed to FastaIndex, and the cache files found next to it, need not be regular files: data staged by a
@@ -71,6 +79,7 @@ import logging
 import os
 import pathlib
 import random
+import re
 import shutil
 import signal
 import tempfile
@@ -194,8 +203,66 @@ def make_fasta_empty(version):
     return "".join(out).encode()
 
 
+# (j) record names in FILE order (0 marks a record without residues in the variants that have such records).  In each pattern
+# the file order differs from the string order of the names, from their natural (numeric) order, from the case-folded order and
+# from the reverse of each; the lengths given by ORDER_LENGTHS are neither ascending nor descending in file order.
+ORDER_PATTERNS = [
+    (["scaffold_2", "scaffold_1", "scaffold_10"], {2}),  # string order 1, 10, 2; natural order 1, 2, 10
+    (["scaffold_10", "scaffold_9", "scaffold_11", "scaffold_1"], {0}),
+    (["ctg_b", "Ctg_c", "ctg_a", "CTG_D"], {1, 3}),  # upper / lower case: code point order differs from case-folded order
+    (["chrX", "chr2", "chr10", "chrMT", "chr1"], {3}),
+    (["z", "m", "a", "q"], {1, 2}),
+    (["s3", "s1", "s2"], set()),
+    (["hap2_5", "hap1_12", "hap1_3", "hap2_1", "hap1_1"], {4}),
+    (["b", "c", "a"], {1}),
+]
+ORDER_LENGTHS = [23, 9, 41, 5, 30]
+
+
+@functools.lru_cache(maxsize=64)
+def make_fasta_order(version):
+    """
+    Contents whose records are NOT in any sorted order (ORDER_PATTERNS[version % 8]); odd rounds of the patterns
+    (version // 8 odd) have records without residues at the marked places, even rounds have none.  Rewrites (version + 1)
+    change names, lengths and offsets.
+    """
+    rng = random.Random(version * 4793 + 11)
+    names, empty = ORDER_PATTERNS[version % len(ORDER_PATTERNS)]
+    if (version // len(ORDER_PATTERNS)) % 2 == 0:
+        empty = set()
+    width = 7 + version % 4
+    out = []
+    for i, name in enumerate(names):
+        out.append(f">{name}" + (" record order\n" if rng.random() < 0.5 else "\n"))
+        if i in empty:
+            continue
+        n = ORDER_LENGTHS[(i + version) % len(ORDER_LENGTHS)] + (version // len(ORDER_PATTERNS))
+        seq = [rng.choice("ACGTacgt") for _ in range(n)]
+        if n > 12 and rng.random() < 0.6:
+            at = rng.randint(2, n - 6)
+            seq[at : at + rng.randint(1, 4)] = "N" * rng.randint(1, 4)
+        seq = "".join(seq)
+        for p in range(0, len(seq), width):
+            out.append(seq[p : p + width] + "\n")
+    return "".join(out).encode()
+
+
+def order_is_telling(data):
+    """generator self-check: the file order of the records differs from every order a program might impose on them"""
+    index, _ = brute(data)
+    names = [r[0] for r in index]
+    nat = lambda s: [int(x) if x.isdigit() else x for x in re.split(r"(\d+)", s)]  # noqa: E731
+    keyed = [sorted(names), sorted(names, key=nat), sorted(names, key=str.casefold), sorted(names, key=lambda s: nat(s.casefold()))]
+    lens = [r[1] for r in index]
+    by_len = [[n for _, n in sorted(zip(lens, names), key=lambda t: t[0], reverse=rev)] for rev in (False, True)] if len(set(lens)) == len(lens) else []
+    return len(names) > 1 and all(names != o and names != o[::-1] for o in keyed + by_len) and names != names[::-1]
+
+
 def size_words(big):
-    """the input of a scenario in words: big is False (small), True (cache files > 8 KiB) or "empty" (make_fasta_empty)"""
+    """the input of a scenario in words: big is False (small), True (cache files > 8 KiB), "empty" (make_fasta_empty) or
+    "order" / "order-empty" (make_fasta_order without / with records that have no residues)"""
+    if big in ("order", "order-empty"):
+        return "small (records not in sorted order of their names" + (", some without residues)" if big == "order-empty" else ")")
     return "small (some records without residues)" if big == "empty" else "big" if big else "small"
 
 
@@ -234,12 +301,14 @@ def make_fasta_ss(family, j):
 class Content:
     """
     the FASTA content of a history: rewrites either change the size in bytes or keep it.  gen: None (make_fasta), "ss"
-    (same-size families), "empty" (contents with records without residues, make_fasta_empty); v0: first version
+    (same-size families), "empty" (contents with records without residues, make_fasta_empty), "order" (records not in sorted
+    order, make_fasta_order); v0: first version
     """
 
     def __init__(self, gen=None, v0=0):
         self.ss = gen in (True, "ss")
         self.empty = gen == "empty"
+        self.order = gen == "order"
         self.version = v0
         self.j = 0
 
@@ -247,6 +316,8 @@ class Content:
     def data(self):
         if self.empty:
             return make_fasta_empty(self.version)
+        if self.order:
+            return make_fasta_order(self.version)
         return make_fasta_ss(self.version, self.j) if self.ss else make_fasta(self.version)
 
     def rewrite(self, same_size):
@@ -371,6 +442,12 @@ def judge(obs, data, agp_file=False):
         return None
     index, asm = brute(data)
     if obs[1] != index:
+        if sorted(obs[1]) == sorted(index):
+            got_names, want_names = [r[0] for r in obs[1]], [r[0] for r in index]
+            return (
+                f"the index has the right {len(index)} entries but lists the records in the order {got_names[:6]}; in the FASTA content they are in the "
+                f"order {want_names[:6]} (the index of a FASTA file is the sequence of its records: iterating it, e.g. to stream all records, gives another file)"
+            )
         return f"index has {len(obs[1])} entries {obs[1][:2]}..., the FASTA content has {len(index)}: {index[:2]}..."
     if agp_file:
         asm = with_rows(asm)
@@ -506,7 +583,12 @@ class FileOps:
             return  # nothing there (any more): the rename itself is going to fail, loudly
         index, asm = brute(self.data)
         want, what = (index, "index rows") if ext == ".fai" else (with_rows(asm), "scaffolds with rows")
-        if got != want:
+        if got != want and got is not None and sorted(map(repr, got)) == sorted(map(repr, want)):
+            self.violation(
+                f"the temporary file renamed to {os.path.basename(dst_s)} holds the {len(want)} {what} of the FASTA content but not in the order of "
+                f"the records in the file: {[r[0] for r in got][:6]} instead of {[r[0] for r in want][:6]} (whoever reads this cache gets the records in another order)"
+            )
+        elif got != want:
             self.violation(
                 f"the temporary file renamed to {os.path.basename(dst_s)} is not completely written at the moment of the rename: it holds "
                 f"{'something unparseable' if got is None else f'{len(got)} {what}'} in {n_lines} lines, the FASTA content has {len(want)} {what}"
@@ -715,6 +797,8 @@ def run_history(ops, col, inp, same_size_family=False, layout="plain", gen=None,
     how = "" if layout == "plain" else f" [FASTA path is a symbolic link ({layout}) to the real file, rewrites go to the target]"
     if gen == "empty":
         how += " [FASTA contents with records that have no residues]"
+    if gen == "order":
+        how += " [FASTA contents whose records are not in sorted order of their names" + (", some without residues]" if (v0 // len(ORDER_PATTERNS)) % 2 else "]")
     if unit != "s" or start:
         how += f" [clock in {unit}, starting at T0+{start} {unit}; every file written by an operation gets exactly the time of that operation]"
     unit_ns = UNIT_NS[unit]
@@ -888,6 +972,16 @@ EMPTY_SAMPLES = [
 ]
 
 
+# (j) contents whose records are not in sorted order.  quick tier: (first version, layout, ops); besides these, [load, load]
+# is run from each of the 16 contents (8 patterns, without / with records that have no residues)
+ORDER_SAMPLES = [
+    (8, "plain", [["L", 1], ["L", 1], ["W", 1], ["L", 1], ["L", 0], ["Lo", 1]]),
+    (1, "link", [["L", 1], ["Dagp", 1], ["L", 1], ["L", 1]]),
+    (10, "chain", [["L", 1], ["S", 1], ["L", 1], ["W", 1], ["L", 1], ["L", 1]]),
+    (3, "plain", [["R", 1], ["L", 1], ["Dfai", 1], ["L", 0], ["L", 1], ["Ro", 1], ["Lo", 1]]),
+]
+
+
 SESSION_SYMBOLS = [("Ws", 0), ("Ws", 1), ("W", 1), ("D", 1), ("L", 1), ("Lo", 1), ("R", 1), ("Ro", 1)]
 
 
@@ -939,10 +1033,18 @@ def setup_scenario(d, scenario, big, layout="plain"):
     In the scenarios of CLOSE_SCENARIOS the FASTA is written 0.4 s after a full second S (about 1000 s ago) and the cache
     files hold the previous content, written at S + 0.2 s (stale-same-second) or at the very same S + 0.4 s
     (stale-same-instant), or the current content, written at S + 0.9 s (valid-same-second).
-    big: False / True (make_fasta) or "empty" (small contents with records without residues).
+    big: False / True (make_fasta), "empty" (small contents with records without residues) or "order" / "order-empty" (small
+    contents whose records are not in sorted order, without / with records that have no residues).
     """
     # records without residues: the current content has two of them in a row between others, the previous one the first and last
-    old, cur = (make_fasta_empty(6), make_fasta_empty(3)) if big == "empty" else (make_fasta(3, big), make_fasta(4, big))
+    if big == "empty":
+        old, cur = make_fasta_empty(6), make_fasta_empty(3)
+    elif big == "order":  # records not in sorted order: current scaffold_2, scaffold_1, scaffold_10; previous content other names
+        old, cur = make_fasta_order(1), make_fasta_order(0)
+    elif big == "order-empty":  # the same with records without residues (current: scaffold_10, the last record of the file)
+        old, cur = make_fasta_order(len(ORDER_PATTERNS) + 3), make_fasta_order(len(ORDER_PATTERNS))
+    else:
+        old, cur = make_fasta(3, big), make_fasta(4, big)
     now = time.time()
     fasta_layout = {"plain": "plain", "cache-links": "plain", "fasta-link": "link", "all-links": "chain"}[layout]
     second = (int(now) - 1000) * 10**9
@@ -1392,7 +1494,7 @@ def run(tier, seed, **opts):
     quick = tier == "quick"
     _VIEW_MEMO.clear()
     _RULE_REPORTED.clear()
-    parts = opts.get("parts", "abcdefghi")  # run only some of the families (testing aid)
+    parts = opts.get("parts", "abcdefghij")  # run only some of the families (testing aid)
     max_len = 4 if quick else 5
     session_len = 3 if quick else 4
     link_len = 3 if quick else 4
@@ -1434,12 +1536,18 @@ def run(tier, seed, **opts):
            "all histories of <= 3 operations as in (a) from each pattern and of <= 4 from the first, histories with links and staging, one-process "
            "histories with long-lived objects and run_indexing(), 200 seeded random ones; crash points (b) and injections (d) on such a content")
         + ", and such a content in the complete runs of (f): index and assembly (a scaffold without rows per such record, in file order) must be those of the content; "
+        "(j) FASTA contents whose records are not in any sorted order (8 name patterns: file order differs from string / natural / case-folded order of the names, from "
+        "ascending / descending length and from the reverse of each; each without and with records that have no residues): "
+        + ("[auto-load, auto-load] from each of the 16 contents, 4 longer histories, complete runs (f) from 3 cache states, crash points (b) and injections (d) from one" if quick else
+           "all histories of <= 3 operations as in (a) from each of the 16 contents and of <= 4 from two, histories with links and staging, one-process histories with "
+           "long-lived objects and run_indexing(), 200 seeded random ones; complete runs (f) from all cache states x layouts x TMPDIR, crash points (b) and injections (d) from 5 cache states")
+        + ": index and assembly are compared as SEQUENCES of records / scaffolds in file order; "
         "non-trivial = distinct histories / crash points / injection points / schedules / complete runs",
         max_samples=8,
     )
     prev = logging.root.manager.disable
     logging.disable(logging.CRITICAL)
-    n_hist = n_crash = n_sched = n_exc = n_sess = n_pub = n_link = n_frac = n_empty = 0
+    n_hist = n_crash = n_sched = n_exc = n_sess = n_pub = n_link = n_frac = n_empty = n_order = 0
     try:
         # (f)
         if "f" in parts:
@@ -1515,6 +1623,60 @@ def run(tier, seed, **opts):
                 col.evaluations += max(0, judged - 1)
                 col.case(("e", v0, layout, repr(ops)), sample=inp if n_empty == 3 else None)
                 n_empty += 1
+        # (j)
+        if "j" in parts:
+            n_pat = len(ORDER_PATTERNS)
+            for v in range(2 * n_pat + 2):
+                if not order_is_telling(make_fasta_order(v)):
+                    raise AssertionError(f"generator: the records of make_fasta_order({v}) are in a sorted order")
+            if quick:
+                gen = itertools.chain(((v0, "plain", [["L", 1], ["L", 1]]) for v0 in range(2 * n_pat)), ORDER_SAMPLES)
+            else:
+                gen = itertools.chain(
+                    ((v0, "plain", ops) for v0 in range(2 * n_pat) for ops in histories(3)),
+                    ((v0, "plain", ops) for v0 in (0, n_pat) for ops in histories(4)),
+                    ((v0, layout, ops) for v0 in (2, n_pat, n_pat + 3) for layout in ("link", "chain") for ops in link_histories(3, layout)),
+                    ((v0, "plain", ops) for v0 in (0, n_pat, n_pat + 2, n_pat + 6) for ops in empty_session_histories(3)),
+                    ((rng.randrange(2 * n_pat), rng.choice(HISTORY_LAYOUTS), random_link_history(rng, rng.randint(4, 8))) for _ in range(200)),
+                )
+            for v0, layout, ops in gen:
+                if col.full:
+                    break
+                inp = {"kind": "history", "gen": "order", "v0": v0, "layout": layout, "ops": ops}
+                judged = run_history(ops, col, inp, layout=layout, gen="order", v0=v0)
+                col.evaluations += max(0, judged - 1)
+                col.case(("o", v0, layout, repr(ops)), sample=inp if n_order == 8 else None)
+                n_order += 1
+            # complete runs (f), crash points (b) and injections (d) on these contents
+            for big in ("order", "order-empty"):
+                states = [(sc, "plain", None) for sc in ("cold", "stale", "valid")] if quick else list(itertools.product(SCENARIOS + CLOSE_SCENARIOS, SCENARIO_LAYOUTS, (None, "other")))
+                for scenario, layout, tmp in states:
+                    for method in ("auto_load", "run_indexing"):
+                        if col.full:
+                            break
+                        inp = {"kind": "publication", "scenario": scenario, "big": big, "layout": layout, "tmp": tmp, "method": method}
+                        publication_experiment(scenario, big, layout, tmp, method, col, inp)
+                        col.case(("p", scenario, big, layout, tmp, method))
+                        n_pub += 1
+                for scenario in (("stale",) if big == "order-empty" else ()) if quick else SCENARIOS:
+                    if not hasattr(os, "fork") or col.full:
+                        break
+                    total, labels = count_events(scenario, big)
+                    for k in range(total + 1):
+                        inp = {"kind": "crash", "scenario": scenario, "big": big, "k": k}
+                        crash_experiment(scenario, big, k, col, inp, labels)
+                        col.case(("c", scenario, big, k, "plain", None))
+                        n_crash += 1
+                for scenario in (("agp-missing",) if big == "order-empty" else ()) if quick else SCENARIOS:
+                    if col.full:
+                        break
+                    total, labels, ks = exception_points(scenario, big, quick)
+                    for n, k in enumerate(ks):
+                        for kind in (EXC_KINDS[n % 3],) if quick else EXC_KINDS:
+                            inp = {"kind": "exception", "scenario": scenario, "big": big, "k": k, "exc": kind}
+                            exception_experiment(scenario, big, k, kind, col, inp, labels)
+                            col.case(("x", scenario, big, k, kind, "plain"))
+                            n_exc += 1
         # (a)
         for ops in histories(max_len) if "a" in parts else ():
             if col.full:
@@ -1629,6 +1791,6 @@ def run(tier, seed, **opts):
         f"file operations and text-handle writes x up to 3 exception kinds); {n_sess} one-process histories of length <= {session_len} "
         "with same-size rewrites and long-lived objects" + ("" if quick else " (300 of them random, length 5-9)")
         + f"; {n_pub} complete runs under the publication rule; {n_link} histories with symbolic links (FASTA path and / or staged cache files)"
-        f"; {n_frac} histories with time stamps that have fractions of a second; {n_empty} histories over FASTA contents with records without residues",
+        f"; {n_frac} histories with time stamps that have fractions of a second; {n_empty} histories over FASTA contents with records without residues; {n_order} histories over FASTA contents whose records are not in sorted order",
         exhaustive=True,
     )
